@@ -792,7 +792,10 @@ class Translator:
             rtol = kw.get('rtol', 1e-05); atol = kw.get('atol', 1e-08)
             # misctools.isclose / np.isclose on finite reals: |a-b| < / <= atol + rtol*|b|
             d = R('(nabs N %s)' % self.rs(self.rsub(a[0], a[1])))
-            bound = self.radd(atol, self.rmul(rtol, R('(nabs N %s)' % self.rs(a[1]))))
+            if isinstance(a[1], (int, float)) and not isinstance(a[1], bool):
+                bound = atol + rtol * abs(float(a[1]))     # a static second argument: the bound as the floats compute it
+            else:
+                bound = self.radd(atol, self.rmul(rtol, R('(nabs N %s)' % self.rs(a[1]))))
             return B('(%s N %s %s)' % (self.isclose_cmp, d.s, self.rs(bound)))
         if name == 'clip' and len(a) == 3 and all(is_realish(x) for x in a):
             return R('(nmin N (nmax N %s %s) %s)' % (self.rs(a[0]), self.rs(a[1]), self.rs(a[2])))
@@ -1081,8 +1084,11 @@ class Translator:
                 if is_realish(a) and is_realish(b):
                     if not isinstance(a, R) and not isinstance(b, R):
                         if type(a) is type(b) and a == b: return a
-                        # two different STATIC numbers (e.g. the ints 0 / 1 used as flags): merging them
-                        # into a symbolic real would lose that they are static — duplicate instead
+                        # two different STATIC ints (flags 0 / 1, angles 0 / 180): the merged value keeps
+                        # both views — the real term for arithmetic and comparisons, the Z term for
+                        # truthiness (RZ).  Other static numbers: duplicate the continuation instead.
+                        if isinstance(a, int) and isinstance(b, int):
+                            return self.merge(c, a, b)
                         raise self.MergeFail()
                     x, y = self.rs(a), self.rs(b)
                     if x == y: return a
@@ -1243,19 +1249,41 @@ class Translator:
             if p.arg not in env:
                 if i >= nd:
                     env[p.arg] = self.ev(fn.args.defaults[i - nd], {})
+                elif isinstance(ret, tuple) and ret[0] == 'post' and len(ret) > 3:
+                    pass          # a slice need not mention every parameter of the function
                 else:
                     raise Unsupported('parameter %s has no declared type' % p.arg, fn)
-        has_raise = any(isinstance(n, ast.Raise) for n in ast.walk(fn))
-        for n in ast.walk(fn):       # raises in directly called module functions (tail calls are inlined with their raises)
-            if isinstance(n, ast.Call) and isinstance(n.func, ast.Name) and n.func.id in self.funcs:
-                if any(isinstance(m, ast.Raise) for m in ast.walk(self.funcs[n.func.id])):
-                    has_raise = True
         body_stmts = list(fn.body)
         if isinstance(ret, tuple) and ret[0] == 'post':
             # ('post', python expression, type): the function returns None; its RESULT is the given
             # expression over the final state (attributes assigned through self)
+            if len(ret) > 3:
+                # a SLICE of the function body: the statements from the first one whose source starts
+                # with ret[3]['from'] (default: the beginning) up to, excluding, the next one whose
+                # source starts with ret[3]['to'] (default: the end); the live variables at the cut are
+                # declared as parameters in sig.  Cutting is the translator's (trusted); each slice is
+                # then a definition of its own with its own agreement lemma.
+                frm, to = ret[3].get('from'), ret[3].get('to')
+                srcs = [ast.unparse(st) for st in body_stmts]
+                i0 = 0
+                if frm is not None:
+                    hits = [i for i, t in enumerate(srcs) if t.startswith(frm)]
+                    if len(hits) != 1: raise Unsupported('slice start %r matches %d statements' % (frm, len(hits)), fn)
+                    i0 = hits[0]
+                i1 = len(body_stmts)
+                if to is not None:
+                    hits = [i for i, t in enumerate(srcs) if i > i0 and t.startswith(to)]
+                    if len(hits) != 1: raise Unsupported('slice end %r matches %d statements' % (to, len(hits)), fn)
+                    i1 = hits[0]
+                body_stmts = body_stmts[i0:i1]
             body_stmts.append(ast.Return(value=ast.parse(ret[1], mode='eval').body))
             ret = ret[2]
+        scope = ast.Module(body=body_stmts, type_ignores=[])
+        has_raise = any(isinstance(n, ast.Raise) for n in ast.walk(scope))
+        for n in ast.walk(scope):    # raises in directly called module functions (tail calls are inlined with their raises)
+            if isinstance(n, ast.Call) and isinstance(n.func, ast.Name) and n.func.id in self.funcs:
+                if any(isinstance(m, ast.Raise) for m in ast.walk(self.funcs[n.func.id])):
+                    has_raise = True
         self.ret_ty = ('opt', ret) if has_raise and not (isinstance(ret, tuple) and ret[0] == 'opt') else ret
         r = self.run(body_stmts, env)
         body = self.render_with(self.ctx.binds, r)
